@@ -1,0 +1,172 @@
+//go:build verif
+// +build verif
+
+package sessions
+
+// Exports for the verification harness in /verif. This file is compiled only
+// with the build tag "verif"; it adds code and changes none.
+
+import (
+	"sort"
+	"time"
+)
+
+// VerifSessionView is a copy of a session's unexported fields.
+type VerifSessionView struct {
+	ID          string
+	User        User
+	Created     time.Time
+	LastAccess  time.Time
+	LastIP      string
+	UAHash      uint64
+	ReferenceID string
+	DataNil     bool
+	Data        map[string]interface{}
+}
+
+// VerifReset installs a fresh, empty cache and a fresh lock manager. The lock
+// manager's goroutines are started by the caller's goroutine, i.e. inside the
+// caller's synctest bubble if there is one.
+func VerifReset() {
+	sessionIDMutexes = newMutexes()
+	initCache()
+}
+
+// VerifView returns a copy of the session's fields, read under its lock.
+func VerifView(s *Session) VerifSessionView {
+	s.RLock()
+	defer s.RUnlock()
+	v := VerifSessionView{
+		ID:          s.id,
+		User:        s.user,
+		Created:     s.created,
+		LastAccess:  s.lastAccess,
+		LastIP:      s.lastIP,
+		UAHash:      s.lastUserAgentHash,
+		ReferenceID: s.referenceID,
+		DataNil:     s.data == nil,
+	}
+	if s.data != nil {
+		v.Data = make(map[string]interface{}, len(s.data))
+		for k, val := range s.data {
+			v.Data[k] = val
+		}
+	}
+	return v
+}
+
+// VerifMake builds a session from field values.
+func VerifMake(v VerifSessionView) *Session {
+	s := &Session{
+		id:                v.ID,
+		user:              v.User,
+		created:           v.Created,
+		lastAccess:        v.LastAccess,
+		lastIP:            v.LastIP,
+		lastUserAgentHash: v.UAHash,
+		referenceID:       v.ReferenceID,
+	}
+	if !v.DataNil {
+		s.data = make(map[string]interface{}, len(v.Data))
+		for k, val := range v.Data {
+			s.data[k] = val
+		}
+	}
+	return s
+}
+
+// VerifCacheView returns the cached sessions, keyed and sorted by the ID they
+// are cached under (returned in the view's ID field; the object's own ID
+// follows in ObjID).
+func VerifCacheView() (keys []string, views []VerifSessionView) {
+	sessions.Lock()
+	defer sessions.Unlock()
+	for id := range sessions.sessions {
+		keys = append(keys, id)
+	}
+	sort.Strings(keys)
+	for _, id := range keys {
+		views = append(views, VerifView(sessions.sessions[id]))
+	}
+	return
+}
+
+// VerifCached returns the object cached under the ID, or nil.
+func VerifCached(id string) *Session {
+	sessions.Lock()
+	defer sessions.Unlock()
+	return sessions.sessions[id]
+}
+
+// VerifDropCache empties the cache without flushing anything (cache loss).
+func VerifDropCache() {
+	sessions.Lock()
+	defer sessions.Unlock()
+	sessions.sessions = make(map[string]*Session)
+}
+
+// VerifCacheGet, VerifCacheSet and VerifCacheDelete are the cache's own entry
+// points.
+func VerifCacheGet(id string) (*Session, error) { return sessions.Get(id) }
+func VerifCacheSet(s *Session) error            { return sessions.Set(s) }
+func VerifCacheDelete(id string) error          { return sessions.Delete(id) }
+
+// VerifMutexes wraps an instance of the keyed lock manager.
+type VerifMutexes struct{ m *mutexes }
+
+// VerifNewMutexes starts a new lock manager (its goroutines belong to the
+// caller's bubble).
+func VerifNewMutexes() *VerifMutexes { return &VerifMutexes{m: newMutexes()} }
+
+// Lock and Unlock are the manager's entry points.
+func (v *VerifMutexes) Lock(key interface{})   { v.m.Lock(key) }
+func (v *VerifMutexes) Unlock(key interface{}) { v.m.Unlock(key) }
+
+// Purge requests a clean-up of the lock table and returns once the manager has
+// accepted the request.
+func (v *VerifMutexes) Purge() { v.m.purge <- struct{}{} }
+
+// Table returns the lock counter of every key in the table. It must only be
+// called while the manager goroutine is blocked in its select.
+func (v *VerifMutexes) Table() map[interface{}]int {
+	v.m.itemsMutex.Lock()
+	defer v.m.itemsMutex.Unlock()
+	t := make(map[interface{}]int, len(v.m.items))
+	for k, item := range v.m.items {
+		t[k] = item.locks
+	}
+	return t
+}
+
+// VerifSetMutexTunables sets the three lock-table tunables and returns the
+// previous values.
+func VerifSetMutexTunables(maxSize int, frequency, stale time.Duration) (int, time.Duration, time.Duration) {
+	a, b, c := mutexMaxCacheSize, mutexCleanupFrequency, mutexStaleMutexes
+	mutexMaxCacheSize, mutexCleanupFrequency, mutexStaleMutexes = maxSize, frequency, stale
+	return a, b, c
+}
+
+// VerifSessionIDMutexTable returns the lock table of the package's own manager.
+func VerifSessionIDMutexTable() map[interface{}]int {
+	return (&VerifMutexes{m: sessionIDMutexes}).Table()
+}
+
+// VerifNewSessionID calls the session ID generator.
+func VerifNewSessionID() (string, error) { return generateSessionID() }
+
+// VerifCUIDState returns the CUID generator's state.
+func VerifCUIDState() (lastT, lastC uint64, mac [6]byte) {
+	lastMutex.Lock()
+	defer lastMutex.Unlock()
+	return lastTime, lastCounter, macAddress
+}
+
+// VerifSetCUIDState sets the CUID generator's state.
+func VerifSetCUIDState(lastT, lastC uint64, mac [6]byte) {
+	lastMutex.Lock()
+	defer lastMutex.Unlock()
+	lastTime, lastCounter, macAddress = lastT, lastC, mac
+}
+
+// VerifWordLists returns the two decompressed password lists.
+func VerifWordLists() (common, dict []string) { return commonPasswords, dictionary }
